@@ -196,6 +196,10 @@ func (r Rules) Sort() Rules {
 	slices.SortFunc(r, func(a, b Rule) int {
 		kindOfA := a.Kind()
 		kindOfB := b.Kind()
+		if kindOfA == INCLUDE && kindOfB == INCLUDE && a.(*Include).IfExists != b.(*Include).IfExists {
+			// 'include if exists' comes last, also with respect to a plain include
+			return boolToInt(a.(*Include).IfExists) - boolToInt(b.(*Include).IfExists)
+		}
 		if kindOfA != kindOfB {
 			if kindOfA == INCLUDE && a.(*Include).IfExists {
 				kindOfA = "include_if_exists"
